@@ -2,8 +2,11 @@ package props
 
 import (
 	"fmt"
+	"os"
+	"path/filepath"
 	"sort"
 	"strings"
+	"time"
 
 	"github.com/go-task/task/v3/zverif/vlab"
 )
@@ -363,7 +366,7 @@ func c14Specs() map[string]*c14Spec {
 
 func c14Units(tier string) []*Unit {
 	var us []*Unit
-	us = append(us, c14FailingTemplateUnit(), c14NestedIncludeDeferUnit())
+	us = append(us, c14FailingTemplateUnit(), c14NestedIncludeDeferUnit(), c14InterruptedProcessUnit())
 	specs := c14Specs()
 	var names []string
 	for k := range specs {
@@ -456,5 +459,56 @@ func c14NestedIncludeDeferUnit() *Unit {
 			out = append(out, vlab.V("C14", "defer_missing", "defer_task:nested_include", fmt.Sprintf("ran %v, expected the job and then the cleanup task of its own Taskfile (mid:inner:cleanup) (status %d %s)", order, x.Code, firstN(x.ErrStr, 100))))
 		}
 		return out
+	}}
+}
+
+// A command that is an external process, interrupted because a sibling failed, which handles
+// the interrupt and exits with a status of its own (7): it failed like any other command, so the
+// task's deferred command runs and sees EXIT_CODE=7. The two tasks are ordered through files
+// (the sibling fails only once the process is known to be running); nothing depends on timing.
+func c14InterruptedProcessUnit() *Unit {
+	name := "cli/interrupted-external-process-exits-with-own-status"
+	tf := `version: '3'
+silent: true
+tasks:
+  parent:
+    deps: [worker, failing]
+  worker:
+    cmds:
+      - defer: echo "worker-defer={{.EXIT_CODE}}" >> worker.out
+      - sh -c 'trap "exit 7" INT TERM; touch worker.started; while true; do sleep 0.05; done'
+  failing:
+    cmds:
+      - while [ ! -f worker.started ]; do sleep 0.05; done
+      - exit 1
+  alone:
+    cmds:
+      - defer: echo "alone-defer={{.EXIT_CODE}}" >> alone.out
+      - sh -c 'exit 7'
+`
+	return &Unit{Name: name, Weight: 1, Custom: func(u *Unit, dir string, deadline time.Time) *vlab.UnitResult {
+		res := &vlab.UnitResult{SigCounts: map[string]int{}, Extra: map[string]any{}}
+		n := 0
+		var samples []any
+		for _, c := range []struct{ task, file, want string }{{"alone", "alone.out", "alone-defer=7"}, {"parent", "worker.out", "worker-defer=7"}} {
+			os.RemoveAll(dir)
+			os.MkdirAll(dir, 0o755)
+			os.WriteFile(filepath.Join(dir, "Taskfile.yml"), []byte(tf), 0o644)
+			_, se, rc := RunCLI(dir, nil, "", c.task)
+			n++
+			b, _ := os.ReadFile(filepath.Join(dir, c.file))
+			got := strings.TrimSpace(string(b))
+			samples = append(samples, map[string]any{"task": c.task, "status": rc, "deferred_output": got})
+			if got != c.want || rc == 0 {
+				v := vlab.V("C14", "exit_code_var", "interrupted_process:"+c.task, fmt.Sprintf("task %s: the deferred command wrote %q (status %d, stderr %q), expected %q and a failing status", c.task, got, rc, firstN(se, 120), c.want))
+				v.Scenario = name
+				v.Input = map[string]any{"taskfile": tf, "args": []string{c.task}}
+				res.SigCounts[v.Sig]++
+				res.Violations = append(res.Violations, v)
+			}
+		}
+		res.Extra["samples"] = samples
+		res.Stats = vlab.Stats{Scenario: name, Execs: n, States: n, Transitions: n, Outcomes: 1, Exhaustive: true}
+		return res
 	}}
 }
